@@ -25,7 +25,7 @@ LEVEL_TEXT = ("Analytic polar-stereographic grids (random pole, rotation, resolu
 LEVEL_NOTE = "Position error bound = 1.5*sqrt(tol)/sigma_min(J) with tol = 1e-7 (bilin_inv's stopping rule), J = local Jacobian in degrees per cell; trusts numpy/netCDF4 and the closed-form projection in the harness."
 RULE = ("cases: sample2d chunks (random fields/masks/positions/substitutes), roundtrip (one grid x subgrid x 2000 positions), e2e (lon/lat release + lon/lat output, sparse and dense). "
         "Non-trivial: positions within one cell of the rim of the valid region are present / masked or outside points present; distinct by grid parameters.")
-MANDATORY = ["e2e_lonlat_stored_packed", "positions_within_1e-9_of_a_masked_edge", "grid_longer_than_700_cells", "e2e_inactive_particles", "e2e_split_output_files", "post_sample2D", "roundtrip_positions", "longitudes_beyond_180", "rim_positions", "subgrid", "outside_value_zero", "outside_value_nan", "masked_corner",
+MANDATORY = ["xy2ll_positions_in_cells_with_a_land_corner", "e2e_lonlat_output_in_cells_with_a_land_corner", "e2e_grid_module_ROMS2_lonlat_release", "e2e_lonlat_stored_packed", "positions_within_1e-9_of_a_masked_edge", "grid_longer_than_700_cells", "e2e_inactive_particles", "e2e_split_output_files", "post_sample2D", "roundtrip_positions", "longitudes_beyond_180", "rim_positions", "subgrid", "outside_value_zero", "outside_value_nan", "masked_corner",
              "all_masked", "outside_raises", "e2e_lonlat_release", "e2e_lonlat_output", "exact_bilinear_field", "fine_grid_below_250m", "e2e_fine_grid_below_250m"]
 ASSUMPTIONS = ["grids are conformal and smooth (polar stereographic) as the property quantifies; the branch cut of longitude is kept outside the grid"]
 TIMEOUT = {"quick": 600, "thorough": 3000}
@@ -226,6 +226,8 @@ def _case_roundtrip(case, R, wd, V, sit, cnt, keys):
         _bump(sit, "fine_grid_below_250m")
     spec = dict(imax=imax, jmax=jmax, N=2, t0=C.T0, frames=[0, 3600], files=[2], vel=dict(kind="zero"),
                 metric=pol, lonlat=pol, grid_in_forcing=False)
+    if case["idx"] % 2 == 1:
+        spec["mask"] = dict(kind="random", p=0.15, seed=case["idx"])  # land cells: longitude and latitude are geometry, the same next to land as in open water
     w = W.write_world(wd / "w", spec)
     sub = None
     if rng.random() < 0.6:
@@ -266,6 +268,24 @@ def _case_roundtrip(case, R, wd, V, sit, cnt, keys):
     tlon, tlat = W.polar_lonlat(X, Y, pol)
     if np.max(np.abs(lon - tlon)) > 2e-2 or np.max(np.abs(lat - tlat)) > 2e-2:
         V.append(C.viol(f"xy2ll is not the grid's lon/lat at the position (max deviation {np.max(np.abs(lon - tlon)):.3g}, {np.max(np.abs(lat - tlat)):.3g} deg)", **desc))
+    with Dataset(w["gridfile"]) as nc_:
+        LON_, LAT_ = np.array(nc_.variables["lon_rho"][:], float), np.array(nc_.variables["lat_rho"][:], float)
+        MASK_ = np.array(nc_.variables["mask_rho"][:], float)
+    ii, jj = np.floor(X).astype(int), np.floor(Y).astype(int)
+    pp, qq = X - ii, Y - jj
+
+    def bilv(F):
+        return (1 - pp) * (1 - qq) * F[jj, ii] + pp * (1 - qq) * F[jj, ii + 1] + (1 - pp) * qq * F[jj + 1, ii] + pp * qq * F[jj + 1, ii + 1]
+
+    blon, blat = bilv(LON_), bilv(LAT_)
+    nearland = (MASK_[jj, ii] * MASK_[jj, ii + 1] * MASK_[jj + 1, ii] * MASK_[jj + 1, ii + 1]) < 1
+    _bump(sit, "xy2ll_positions_in_cells_with_a_land_corner", int(nearland.sum()))
+    _bump(sit, "xy2ll_positions_compared_with_bilinear_interpolation", n)
+    dev = np.maximum(np.abs(np.asarray(lon) - blon), np.abs(np.asarray(lat) - blat))
+    if not np.all(dev <= 1e-9):
+        i_ = int(np.nanargmax(np.where(np.isfinite(dev), dev, np.inf)))
+        V.append(C.viol(f"xy2ll({X[i_]:.6f},{Y[i_]:.6f}) = ({np.asarray(lon)[i_]:.9f},{np.asarray(lat)[i_]:.9f}); bilinear interpolation of lon_rho/lat_rho there is ({blon[i_]:.9f},{blat[i_]:.9f}) "
+                        f"({'a corner of the cell is land' if nearland[i_] else 'open water'}; {int(np.sum(~(dev <= 1e-9)))} of {n} positions)", **desc))
     try:
         X2, Y2 = g.ll2xy(lon, lat)
     except Exception as e:  # noqa: BLE001
@@ -324,10 +344,22 @@ def _case_e2e(case, wd, V, sit, cnt, keys):
     if rng.random() < 0.5:
         sub = [2, imax - 2, 3, jmax - 1]
         _bump(sit, "subgrid")
+    roms2 = bool(case["idx"] % 6 == 4)  # the documented alternative grid/forcing module (adaptive subgrid) has its own xy2ll / ll2xy
+    if roms2:
+        sub = None
     i0, i1, j0, j1 = sub or [1, imax - 1, 1, jmax - 1]
     npart = 6
     X = rng.uniform(i0 + 2.0, i1 - 3.0, size=npart)
     Y = rng.uniform(j0 + 2.0, j1 - 3.0, size=npart)
+    if case["idx"] % 3 == 0:
+        # scattered land cells; every particle starts in a sea cell, most of them in cells of which a corner is land
+        w["mask"] = dict(kind="random", p=0.12, seed=case["idx"])
+        Mk = W.make_mask(w["mask"], jmax, imax)
+        for k_ in range(npart):
+            for _try in range(200):
+                if Mk[int(round(Y[k_])), int(round(X[k_]))] > 0:
+                    break
+                X[k_], Y[k_] = rng.uniform(i0 + 2.0, i1 - 3.0), rng.uniform(j0 + 2.0, j1 - 3.0)
     lon, lat = W.polar_lonlat(X, Y, pol)  # true coordinates of the intended positions
     bylonlat = bool(case["idx"] % 2 == 0)
     layout = "dense" if (case["idx"] // 2) % 2 else "sparse"
@@ -349,8 +381,16 @@ def _case_e2e(case, wd, V, sit, cnt, keys):
         run["output"]["instance"]["lat"] = dict(datatype="i4", scale_factor=1.0e-6)
         lltol = 0.51e-6
         _bump(sit, "e2e_lonlat_stored_packed")
-    res, conf, world = run_scenario(dict(world=w, run=run), wd)
-    desc = dict(grid=[imax, jmax], subgrid=sub, by_lonlat=bylonlat, layout=layout)
+    def tweak(conf):
+        if roms2:
+            conf["grid"]["module"] = "ladim.ROMS2"
+            conf["forcing"]["module"] = "ladim.ROMS2"
+            conf["grid"].pop("subgrid", None)
+
+    res, conf, world = run_scenario(dict(world=w, run=run), wd, tweak=tweak)
+    if roms2:
+        _bump(sit, "e2e_grid_module_ROMS2_lonlat_release" if bylonlat else "e2e_grid_module_ROMS2")
+    desc = dict(grid=[imax, jmax], subgrid=sub, by_lonlat=bylonlat, layout=layout, grid_module="ladim.ROMS2" if roms2 else "ladim.ROMS")
     if not res.ok:
         V.append(C.viol(f"run with lon/lat {'release' if bylonlat else 'output'} did not complete: {res.exc}", tb=res.tb[-1200:], **desc))
         return
@@ -384,6 +424,9 @@ def _case_e2e(case, wd, V, sit, cnt, keys):
         for k in range(len(r.pid)):
             x, y = float(r.vars["X"][k]), float(r.vars["Y"][k])
             wl, wa = bil(LON, x, y), bil(LAT, x, y)
+            if "mask" in w:
+                i_, j_ = int(np.floor(x)), int(np.floor(y))
+                _bump(sit, "e2e_lonlat_output_in_cells_with_a_land_corner", int(Mk[j_, i_] * Mk[j_, i_ + 1] * Mk[j_ + 1, i_] * Mk[j_ + 1, i_ + 1] < 1))
             if abs(r.vars["lon"][k] - wl) > lltol or abs(r.vars["lat"][k] - wa) > lltol:
                 V.append(C.viol(f"record at {r.time}: pid {r.pid[k]} at ({x:.5f},{y:.5f}) has lon/lat ({r.vars['lon'][k]:.7f},{r.vars['lat'][k]:.7f}) in the file, "
                                 f"bilinear interpolation of lon_rho/lat_rho there is ({wl:.7f},{wa:.7f})", **desc))
